@@ -30,6 +30,8 @@ for d in "$ROOT"/ocaml/driver_*.ml; do
   name=$(basename "$d" .ml)
   model=$(head -1 "$d" | sed -n 's/.*MODEL: *\([A-Za-z0-9_]*\).*/\1/p')
   [ -n "$model" ] || model=model
+  # drivers of engines that are not integrated yet (their extraction is not in _CoqProject) are skipped
+  [ -f "$model.ml" ] || { echo "skip $name (no $model.ml)"; continue; }
   if [ ! -x "$name" ] || [ "$d" -nt "$name" ] || [ "$model.ml" -nt "$name" ]; then
     cp "$d" .
     ocamlfind ocamlopt -O2 -w -a "$model.mli" "$model.ml" "$name.ml" -o "$name" 2>/dev/null \
